@@ -26,6 +26,8 @@ CONSTANTS
   OpSet,        \* operations enabled in this configuration
   EmitPrograms, \* print REPLAY lines (programs for binding G)
   SampleK,      \* emit every transition's program with probability 1/SampleK
+  MaxBuf,       \* largest byte buffer the model allocates; larger in-contract requests are
+                \* resource exhaustion (the allocator would fail), which no property covers
   OrigMinW,     \* MIN_ORIGINAL_CAPACITY_WIDTH (10 in the code; 2 in scaled configurations)
   OrigMaxW,     \* MAX_ORIGINAL_CAPACITY_WIDTH (17 in the code; 4 scaled)
   Mutation      \* "none", or the name of a seeded model mutant (self-test of the laws)
@@ -557,6 +559,7 @@ ReserveInner(M, h, add, allocate) ==
           LET vlen == len + off
               need == vlen + add
           IN IF need > IMAXW THEN [M |-> M, res |-> "panic"]      \* capacity overflow
+             ELSE IF VecGrow(m.cap + off, need) > MaxBuf THEN [M |-> M, res |-> "oom"]
              ELSE LET ncap == VecGrow(m.cap + off, need)
                       old == IF m.cap + off > 0 THEN Rd(M, m.a, 0, vlen) ELSE <<>>
                       M1 == AllocBuf(M, ncap, Pad(old, ncap))
@@ -590,6 +593,7 @@ ReserveInner(M, h, add, allocate) ==
              IN \* v.set_len(off+len); v.reserve(want - vlen)
                 IF want > IMAXW THEN [M |-> M, res |-> "panic"]
                 ELSE IF vcap >= want THEN [M |-> Set(M, h, [m EXCEPT !.cap = vcap - off]), res |-> "true"]
+                ELSE IF VecGrow(vcap, want) > MaxBuf THEN [M |-> M, res |-> "oom"]
                 ELSE LET ncap == VecGrow(vcap, want)
                          old == IF vcap > 0 THEN Rd(M, m.a, 0, vlen) ELSE <<>>
                          M1 == AllocBuf(M, ncap, Pad(old, ncap))
@@ -600,6 +604,7 @@ ReserveInner(M, h, add, allocate) ==
      ELSE \* not unique: fresh Vec of max(new_cap, original capacity), release the old one
           LET want == Max2(newcap0, OrigCap(M.mem[c].orig)) IN
           IF want > IMAXW THEN [M |-> M, res |-> "panic"]
+          ELSE IF want > MaxBuf THEN [M |-> M, res |-> "oom"]
           ELSE IF want = 0 THEN
                LET M1 == RelM(M, c) IN [M |-> Set(M1, h, [m EXCEPT !.vt = "vec", !.c = 0, !.a = -100, !.off = 0, !.cap = 0]), res |-> "true"]
           ELSE LET M1 == AllocBuf(M, want, Pad(Rd(M, m.a, m.off, len), want))
@@ -614,7 +619,8 @@ MReserve ==
            n == EvalArg(m, s)
            prog == Prog(op, h, s, Z, 0, 0, 0)
            R == IF n <= m.cap - m.len THEN [M |-> Mach, res |-> "true"] ELSE ReserveInner(Mach, h, n, op = "m_reserve")
-       IN IF R.res = "panic" THEN PanicStep(op, h, n, 0, 0, 0, prog)
+       IN IF R.res = "oom" THEN FALSE
+          ELSE IF R.res = "panic" THEN PanicStep(op, h, n, 0, 0, 0, prog)
           ELSE Commit(R.M, Event(R.M, op, h, n, 0, 0, 0, 0, <<>>, "ok", <<>>,
                                  IF op = "m_reserve" THEN -9 ELSE IF R.res = "true" THEN 1 ELSE 0), prog)
 
@@ -625,7 +631,8 @@ MExtend ==
            d == FreshData(k)
            prog == Prog("m_extend", h, Abs(k), Z, 0, 0, 0)
            R == IF k <= m.cap - m.len THEN [M |-> Mach, res |-> "true"] ELSE ReserveInner(Mach, h, k, TRUE)
-       IN IF R.res = "panic" THEN PanicStep("m_extend", h, k, 0, 0, 0, prog)
+       IN IF R.res = "oom" THEN FALSE
+          ELSE IF R.res = "panic" THEN PanicStep("m_extend", h, k, 0, 0, 0, prog)
           ELSE LET m1 == R.M.hd[h]
                    M == Set(Wr(R.M, m1.a, m1.off + m1.len, d), h, [m1 EXCEPT !.len = @ + k])
                IN Commit(M, Event(M, "m_extend", h, k, 0, 0, 0, 0, d, "ok", <<>>, -9), prog)
@@ -654,7 +661,8 @@ MUnsplit ==
                   LET k == x.len
                       d == Rd(Mach, x.a, x.off, k)
                       R == IF k <= m.cap - m.len THEN [M |-> Mach, res |-> "true"] ELSE ReserveInner(Mach, h, k, TRUE)
-                  IN IF R.res = "panic" THEN PanicStep("m_unsplit", h, 0, 0, 0, o, prog)
+                  IN IF R.res = "oom" THEN FALSE
+                     ELSE IF R.res = "panic" THEN PanicStep("m_unsplit", h, 0, 0, 0, o, prog)
                      ELSE LET m1 == R.M.hd[h]
                               M1 == Set(Wr(R.M, m1.a, m1.off + m1.len, d), h, [m1 EXCEPT !.len = @ + k])
                           IN fin(DropM(Del(M1, o), x))
